@@ -145,8 +145,11 @@ CHECKS = {
          "classify_doc, validate_headers_spec, get_requests (<= budget+1 requests whatever the cache holds), get_cache_sound, "
          "cache_transparent_partial (every history, every capacity, when no finite chain exceeds the budget) and "
          "cache_transparent_refuted (21-hop witness). Tie: jtp.Get/client.FetchURL against the simulator over a response grammar and "
-         "redirect graphs, fetch sequences, cache sizes 1,2,3,128: document, source and exact request sequence equal Jtp.get.",
-    note="KNOWN FINDING C03/redirect-chain-longer-than-budget (printed as KNOWN-FINDING). Regexes modelled as deterministic scanners; "
+         "redirect graphs, fetch sequences, cache sizes 1,2,3,128: document, source and exact request sequence equal Jtp.get. "
+         "Webfinger lookups (tolerated jrd+json/json) share the cache: wf_requests, wf_cache_keys (their entries live under keys "
+         "tagged with the request kind), wf_scan_link/notfound; worlds mix lookups with document fetches of the same URL.",
+    note="KNOWN FINDING C03/redirect-chain-longer-than-budget (printed as KNOWN-FINDING). Fixed: cache keyed by URL alone (318e568). "
+         "Regexes modelled as deterministic scanners; "
          "LRU modelled exactly; libraries are oracles.",
     technique="Coq proof (induction on the redirect budget, cache invariants) + differential correspondence against a TLS simulator",
     design="5/C03"),
@@ -154,9 +157,15 @@ CHECKS = {
     text="Proof: request_shape, request_single (a recognised stream is exactly one request line + Host + Accept, no body, no second "
          "request), injection_refused, no_plaintext (requests only for https URLs on every hop), request_needs_dial. Tie: the simulator "
          "records every byte of every connection and counts plaintext connections to a canary port; the verified recogniser "
-         "parse_request judges each recorded stream; hostile URLs (encoded CR/LF, userinfo, ports, schemes) and hostile Locations.",
+         "parse_request judges each recorded stream; hostile URLs (encoded CR/LF, userinfo, ports, schemes) and hostile Locations. "
+         "WEBFINGER (what the user types after '@'): split_at_spec, query_escape_chars/no_crlf_sp/no_delims/roundtrip/injective (the "
+         "modelled url.QueryEscape emits only unreserved characters, + and percent escapes, and the server decodes exactly what was "
+         "typed), wf_uri_shape, wf_request_shape (exactly one request line + Host + Accept whatever account was typed), wf_no_at, "
+         "wf_requests, wf_first_request; tie: client.ResolveWebfinger on names with hostile accounts and domains against the simulator, "
+         "results and recorded requests equal the model, Accept is one of the program's two constants.",
     note="url.Parse rejects raw control characters (library); a raw space in a query is kept by net/url (documented quirk, still one "
-         "request line).",
+         "request line). The webfinger domain becomes the Host of a hand-built URL unvalidated: a name with CR/LF, spaces, '/', '@' "
+         "never resolves (Go's resolver refuses it before anything is sent) - an assumption about the resolver, observed by the check.",
     technique="Coq proof (byte-level recogniser soundness/completeness) + recorded-bytes oracle on a TLS simulator",
     design="5/C04"),
  "C05": dict(
@@ -186,7 +195,9 @@ CHECKS = {
          "colon_enters_command, command_types, digit_selects/appends, history_keys (= the C18 History model), move_down/up/"
          "center_key, space_opens, space_keeps_pages. Tie: the real ui.State driven key by key (incl. held loaders, resizes, arbitrary "
          "bytes) over synthetic worlds; after every key mode, buffer, page, highlighted item, loaded window, loader flags, frame "
-         "count, frame height AND the text of the frame on the screen equal Ui.update/run_task/last_frame; exhaustive short sequences.",
+         "count, frame height AND the text of the frame on the screen equal Ui.update/run_task/last_frame; exhaustive short sequences. "
+         "reachable_from_inv / every_frame_from: the invariants hold in every state reachable from the two states State.Subcommand "
+         "starts the program in, and every frame emitted on the way was computed without a panic.",
     note="PARTIAL in one respect: the single refinement theorem to an abstract keymap over fully-known threads (window coverage after "
          "settling) is replaced by the invariant + per-key theorems + correspondence. c/r/a/o/p/b need pub's concrete types and are "
          "no-ops on the synthetic items.",
